@@ -84,6 +84,7 @@ def main():
     if not ok:
         print("NOT CONFIRMED - keep the worktree: suite_ok=%s demo_ok=%s" % (suite_ok, demo_ok))
     print(json.dumps({"name": name, "confirmed": ok, "suite_ok": suite_ok, "demo": res, "verdicts": {c: v["exit"] for c, v in verdicts.items()}}, indent=1))
+    print("FILED %s" % name if ok else "NOT-FILED %s (suite_ok=%s demo_ok=%s) - DO NOT DELETE THE WORKTREE" % (name, suite_ok, demo_ok))
     return 0 if ok else 1
 
 if __name__ == "__main__":
